@@ -307,7 +307,9 @@ def main():
             return inconclusive('obligation failed after a proof hint lost its anchor; no concrete failing input found')
 
     if out_of_reach_msg and rc == 0:
-        if bres and bres['ok'] and not bounded_fail:
+        unlisted = [bf for bf in bounded_fail
+                    if not match_known(prop, {'obligation': f'bounded::{bf[0]}', 'message': bf[1]}, known)]
+        if bres and bres['ok'] and not unlisted:
             print(f'BOUNDED-STANDIN property={prop} {out_of_reach_msg[:300]} -- bounded harness {P["bounded"]} passed (not a proof)')
             cov['out_of_reach'] = out_of_reach_msg
         else:
